@@ -100,4 +100,45 @@ vectorisePositions = FunctionSpec(
     note="bit k = 1 iff some label in [start+k*res, start+(k+1)*res); labels in [start, end] are covered",
 )
 
-SPECS = [vectorisePositions]
+
+# ------------------------------------------------------------------ blur (assumed: zip_longest / any / numpy; bounded-checked by bcheck.c16)
+def _blur_ensures(C, res):
+    v, r = C.vector, C.radius
+    i, j = z3.Int('i'), z3.Int('j')
+    return [('same_length', res.len == v.len),
+            ('bit_set_iff_original_bit_within_radius', forall(i, z3.Implies(rng(0, i, v.len), z3.And(
+                z3.Or(res[i] == 0, res[i] == 1),
+                (res[i] == 1) == z3.Exists([j], z3.And(rng(0, j, v.len), i - r <= j, j <= i + r, v[j] != 0)))), [res[i]]))]
+
+
+blur = FunctionSpec(
+    file='src/correlation/vectorise.py', qualname='blur', params=dict(vector=LIST(INT), radius=INT), returns=LIST(INT),
+    requires=lambda C: [('radius_nonnegative', C.radius >= 0)], ensures=_blur_ensures, trusted=True,
+    raises={'ValueError': lambda C: C.radius < 0}, serves=('C16',),
+    note="ASSUMED contract (zip_longest, any, numpy array are outside the verifier); checked exhaustively on all bit vectors up to length 8/11 by bcheck.c16")
+
+
+# ------------------------------------------------------------------ SequenceGenerator.positionsToSequence (composition)
+def _pts_ensures(C, res):
+    P = C.positions
+    n = P.len
+    res_, r = C.self.resolution, C.self.blurRadius
+    B = lambda k: Bf(C.start, res_, k)
+    i, j, t = z3.Int('i'), z3.Int('j'), z3.Int('t')
+    has_label = lambda k: z3.Exists([t], z3.And(rng(0, t, n), B(k) <= P[t], P[t] < B(k + 1)))
+    return [('bits', forall(i, z3.Implies(rng(0, i, res.len), z3.Or(res[i] == 0, res[i] == 1)), [res[i]])),
+            ('bit_set_iff_a_label_lies_in_a_bin_within_the_blur_radius_relative_to_start',
+             forall(i, z3.Implies(rng(0, i, res.len),
+                                  (res[i] == 1) == z3.Exists([j], z3.And(rng(0, j, res.len), i - r <= j, j <= i + r, has_label(j)))), [res[i]])),
+            ('labels_between_start_and_end_are_covered',
+             forall(t, z3.Implies(z3.And(rng(0, t, n), P[t] >= C.start, P[t] <= _end_eff(C)), P[t] < B(res.len)), [P[t]]))]
+
+
+positionsToSequence = FunctionSpec(
+    file='src/correlation/sequence_generator.py', qualname='SequenceGenerator.positionsToSequence',
+    params=dict(self=OBJ('SequenceGenerator'), positions=LIST(REAL), start=REAL, end=OPT(REAL)), returns=LIST(INT),
+    requires=lambda C: _requires(C) + [('resolution_positive', C.self.resolution >= 1), ('radius_nonnegative', C.self.blurRadius >= 0)],
+    ensures=_pts_ensures, serves=('C16', 'C06'),
+    note="composition of vectorisePositions and blur: bins are counted from `start` (the same origin the bin-to-bp conversion uses)")
+
+SPECS = [vectorisePositions, blur, positionsToSequence]
